@@ -31,7 +31,7 @@ def main():
         if r.error: print(r.error)
         for o, res in r.obls:
             print('   %-45s p%-3d %-9s %s %.3fs %s' % (o.name, o.path, res['verdict'], res['backend'], res['time_s'], o.note))
-            if res['verdict'] == 'refuted':
+            if res['verdict'] == 'refuted' and res.get('model') is not None:
                 m = res['model']
                 print('      model:', {k: m.eval(v.t, model_completion=True) for k, v in (o.inputs or {}).items()})
 main()
